@@ -26,7 +26,7 @@ pub open spec fn all_items_verdict(items: Seq<Box<dyn SupplyChainItem>>, links: 
 }
 //@extract src/verifylib.rs fn:verify_all_item_rules props=C03,C08,C14
 //@contract ret=r
-    ensures r is Ok <==> all_items_verdict(steps@, reduced_link_files@),   // [C03]
+    ensures r is Ok <==> all_items_verdict(steps@, reduced_link_files@),   // [C03,C08]
 //@loop 1 iter=it
         invariant
             it.seq().len() == steps@.len(),
